@@ -507,7 +507,13 @@ class Repo:
             if head in m.assigns and head not in m.classes and head not in m.functions:
                 vals = m.assigns[head]
                 if len(vals) == 1:
-                    tgt = self.resolve_expr(m, vals[0]) if dotted(vals[0]) or isinstance(vals[0], ast.Subscript) else None
+                    v0 = vals[0]
+                    # a decorator applied by hand keeps the callee: X = functools.lru_cache(...)(Y), X = functools.wraps(Y)(Z)
+                    if isinstance(v0, ast.Call) and len(v0.args) == 1 and not v0.keywords and (dotted(v0.args[0]) or isinstance(v0.args[0], ast.Subscript)):
+                        deco = v0.func.func if isinstance(v0.func, ast.Call) else v0.func
+                        if (dotted(deco) or "").split(".")[-1] in ("lru_cache", "cache", "wraps", "partial", "staticmethod", "classmethod"):
+                            v0 = v0.args[0]
+                    tgt = self.resolve_expr(m, v0) if dotted(v0) or isinstance(v0, ast.Subscript) else None
                     if tgt and tgt != f"{m.name}.{head}":
                         return self.resolve_qual(".".join([tgt] + rest))
             return self.resolve_qual(".".join([f"{m.name}.{head}"] + rest))
